@@ -2,7 +2,6 @@
 package main
 
 import (
-	"sync/atomic"
 	"bytes"
 	"crypto"
 	"crypto/ecdsa"
@@ -22,7 +21,9 @@ import (
 	"os"
 	"path/filepath"
 	"runtime"
+	"strings"
 	"sync"
+	"sync/atomic"
 	"time"
 
 	"github.com/theparanoids/ysshra/attestation/yubiattest"
@@ -210,6 +211,9 @@ type attCase struct {
 
 var ring *ev.Ring
 
+// goneAtt is an attestor whose root files were removed after it was built.
+var goneAtt *yubiattest.Attestor
+
 func runCase(r *ev.Run, c *ev.Case, att *yubiattest.Attestor, f9 *x509.Certificate, ac attCase, sig, tbs []byte) {
 	r.Eval(1)
 	attest := &x509.Certificate{SignatureAlgorithm: x509.SignatureAlgorithm(ac.Alg), RawTBSCertificate: tbs, Signature: sig}
@@ -315,6 +319,17 @@ func main() {
 			} else {
 				r.Violation(r.CaseAlways("attestor", 0), "attestor-construction-from-files-fails", aerr.Error(), nil)
 			}
+		}
+		// a third attestor: built from PEM files that disappear afterwards (rotated, unmounted). It keeps judging by the roots
+		// it was configured with — or fails — but never by anything else the host trusts.
+		if dir2, derr := os.MkdirTemp("", "roots2"); derr == nil {
+			piv, u2fp := filepath.Join(dir2, "piv.pem"), filepath.Join(dir2, "u2f.pem")
+			os.WriteFile(piv, pem.EncodeToMemory(&pem.Block{Type: "CERTIFICATE", Bytes: p.rootDER}), 0o600)
+			os.WriteFile(u2fp, pem.EncodeToMemory(&pem.Block{Type: "CERTIFICATE", Bytes: p.rootDER}), 0o600)
+			if a, aerr := yubiattest.NewAttestor(piv, u2fp); aerr == nil {
+				goneAtt = a
+			}
+			os.RemoveAll(dir2)
 		}
 		rootsHex := hex.EncodeToString(p.rootDER)
 
@@ -427,6 +442,23 @@ func main() {
 					ac.HostTrust = hex.EncodeToString(p.other.Raw)
 				}
 				runCase(r, c, att, f9, ac, sig, tbs)
+				if goneAtt != nil && ac.Expect == "reject" && strings.HasPrefix(ac.What, "chain-") {
+					// whatever became of its files, it does not start accepting what the configured roots do not cover
+					ac2 := ac
+					ac2.What, ac2.HostTrust = ac.What+":root-files-removed-after-construction", hex.EncodeToString(p.other.Raw)
+					for k := 0; k < 2; k++ {
+						r.Eval(1)
+						attest := &x509.Certificate{SignatureAlgorithm: x509.SignatureAlgorithm(ac.Alg), RawTBSCertificate: tbs, Signature: sig}
+						var err error
+						if r.Guard(c, "Attest", ac2.What, func() { err = goneAtt.Attest(f9, attest) }) {
+							break
+						}
+						if err == nil {
+							r.Violation(c, "accepts-invalid:"+ac2.What, "an attestor whose root files were removed after it was built accepted a chain its configured roots do not cover", ac2)
+							break
+						}
+					}
+				}
 			}
 		}
 
